@@ -463,8 +463,9 @@ func (g *FnGen) arith(op token.Token, x, y Val, t types.Type) (string, string) {
 		if !signed {
 			return fmt.Sprintf("(mod %s %s)", x.T, y.T), ""
 		}
+		// Go's remainder has the sign of the dividend; for x >= 0 and y > 0 it is SMT's mod (kept linear for the solver)
 		q := fmt.Sprintf("(ite (>= %[1]s 0) (div %[1]s %[2]s) (- (div (- %[1]s) %[2]s)))", x.T, y.T)
-		return fmt.Sprintf("(- %s (* %s %s))", x.T, y.T, q), ""
+		return fmt.Sprintf("(ite (and (>= %[1]s 0) (> %[2]s 0)) (mod %[1]s %[2]s) (- %[1]s (* %[2]s %[3]s)))", x.T, y.T, q), ""
 	case token.AND:
 		// only masks 2^k-1
 		if y.K != nil {
